@@ -88,10 +88,10 @@ def run(e: Engine, rep: Report):
              'is ever assigned to DataSender.end_marker')
     r59(e, rep)
     rep.rule('R5.16', 'the reader undoes the stuffing wherever the sender '
-             'may have done it: the dot removal and the end-of-data test in '
-             'handle_finished_line run for every finished line of the '
-             'message - under no condition other than "still inside the '
-             'data", "not the end-of-data line", "starts with a dot"')
+             'may have done it: the dot removal in handle_finished_line '
+             'runs for every finished line of the message - under no '
+             'condition other than "still inside the data", "not the '
+             'end-of-data line", "starts with a dot"')
     r516(e, rep, 'R5.16')
     rep.rule('R5.15', 'the sender puts the content on the wire as it is, '
              'dots added and nothing else: no method of DataSender passes '
@@ -953,6 +953,10 @@ def r516(e: Engine, rep: Report, rule: str = 'R5.16'):
         return 'EOD' in k or 'eod_pattern' in k or "b'.'" in k or \
             k.startswith('len(') or '_in_data' in k
     for n, what in sites:
+        if what != 'dot removal':
+            # (the sender always ends the data with CRLF . CRLF: an end
+            # mark recognised after a CRLF only still agrees with it)
+            continue
         rep.evaluations += 1
         st = fx.at(n) or frozenset()
         extra = sorted(k for p, k in st if not allowed(k))
